@@ -593,7 +593,12 @@ impl<'a> Interpreter<'a> {
             }
         }
         let res = macro_(self, this.clone(), &v);
-        Ok(res)
+        // a macro hands failures of its bodies back as values; running out of depth in one
+        // still aborts the evaluation, as it does in a call argument or a referenced program
+        match res {
+            CelValue::Err(e) if Self::is_depth_exceeded(&e) => Err(e),
+            res => Ok(res),
+        }
     }
 
     /// Evaluates call arguments in order. The inner result is the first argument that
